@@ -77,7 +77,7 @@ func scenarioC09(r *Run) {
 	if !faulted {
 		c0 = collect(rc)
 	}
-	if cur2 := nonCanonicalDeep(cur); cur2 != "" {
+	if cur2 := nonCanonicalDeep(w.Dec, cur); cur2 != "" {
 		r.Probe("input-noncanonical")
 	} else {
 		r.Probe("input-canonical")
@@ -126,7 +126,7 @@ func scenarioC09(r *Run) {
 					"hop %d (raw kept): re-encoding differs from the input in more than payload/signature/signatures-array heads\n input: %s\noutput: %s\n  want: %s", h, hexShort(cur), hexShort(out), hexShort(want))
 				return
 			}
-			if nonCanonicalDeep(cur) == "" && !bytes.Equal(out, cur) {
+			if nonCanonicalDeep(w.Dec, cur) == "" && !bytes.Equal(out, cur) {
 				r.Fail("canonical-input-not-reproduced/"+spec.Kind.String(), "hop %d: deterministic input re-encoded differently\n input: %s\noutput: %s", h, hexShort(cur), hexShort(out))
 				return
 			}
@@ -154,7 +154,7 @@ func scenarioC09(r *Run) {
 		} else if !dropped {
 			// first hop that discarded the raw bytes: output must be canonical
 			dropped = true
-			if why := nonCanonicalDeep(out); why != "" {
+			if why := nonCanonicalDeep(w.Dec, out); why != "" {
 				r.Fail("dropraw-output-not-canonical/"+spec.Kind.String(), "hop %d (raw discarded): output is not deterministic CBOR: %s\noutput: %s", h, why, hexShort(out))
 				return
 			}
